@@ -26,6 +26,10 @@ type Explorer struct {
 	// the default one (continue the running thread, else the lowest enabled thread id, first ready select
 	// case) costs 1, also when the running thread is blocked. For systems with many symmetric threads.
 	EveryDeviationCosts bool
+	// Sharding of one large system over several processes: the choice tree is cut at depth SplitDepth;
+	// every shard walks the tree above the cut, and expands below it only the depth-SplitDepth prefixes
+	// whose hash it owns. Each shard prunes with its own table only, so the union over shards is exhaustive.
+	Shard, NShards, SplitDepth int
 
 	bound       int
 	prune       bool
@@ -135,6 +139,22 @@ func (x *Explorer) next(s *execSummary) ([]int, []uint64) {
 	return nil, nil
 }
 
+// owns tells whether this shard expands the subtree below the first SplitDepth choices of tr.
+func (x *Explorer) owns(tr []Decision) bool {
+	if x.NShards <= 1 {
+		return true
+	}
+	h := uint64(0x5a17)
+	for i := 0; i < x.SplitDepth; i++ {
+		c := 0
+		if i < len(tr) {
+			c = tr[i].C
+		}
+		h = mix(h, uint64(c))
+	}
+	return int(h%uint64(x.NShards)) == x.Shard
+}
+
 func boundName(b int) string {
 	if b < 0 {
 		return "unbounded"
@@ -179,6 +199,14 @@ func (x *Explorer) Explore() *Result {
 				break
 			}
 			s := x.runOne(prefix, psig, false)
+			if !x.owns(s.trace) {
+				// skeleton execution owned by another shard: walked only to discover the tree above the cut
+				prefix, psig = x.next(s)
+				if prefix == nil {
+					break
+				}
+				continue
+			}
 			br.Executions++
 			res.Executions++
 			br.States += s.newKeys
